@@ -160,6 +160,11 @@ def check(ctx, replay=None):
         scenarios = gen.generate(ctx.seed, n)
         # a second stream aimed at this property's own case splits
         scenarios += gen.generate(ctx.seed + 1000, n // 3, focus_weights=mon.FOCUS.get(pid, [None]))
+        if pid == "C05":
+            import random
+            rng = random.Random(ctx.seed * 31 + 5)
+            for _ in range(40 if ctx.tier == "quick" else 600):
+                scenarios += gen.gen_pair_L0(rng)
         label = "%s_%d" % (ctx.tier, ctx.seed) + ("" if pid not in mon.OWN_STREAM else "_" + pid)
     res = shared_run(ctx, scenarios, label)
     if res is None:
